@@ -147,3 +147,28 @@ Definition acct_has_req_attrs (reqs accs : list bytes) : bool :=
   | [] => true
   | _ => match find_unmatched reqs accs with [] => true | _ => false end
   end.
+
+(** ** Changes to a stored required-attribute list (MsgMarketManageReqAttrs)
+
+    strings.EqualFold on ASCII: equal after lower-casing (what IntersectionOfAttributes uses to
+    compare the RAW to-add entries with the RAW to-remove entries in ValidateBasic). *)
+Definition eq_fold (a b : bytes) : bool := bytes_eqb (map to_lower a) (map to_lower b).
+
+(** exchange.ValidateAddRemoveReqAttrs (run by MsgMarketManageReqAttrsRequest.ValidateBasic):
+    the entries to add pass ValidateReqAttrs, and no entry to add equals (EqualFold, on the text as
+    given) an entry to remove. *)
+Definition validate_add_remove_req_attrs (add rem : list bytes) : bool :=
+  validate_req_attrs add &&
+  forallb (fun a => negb (existsb (eq_fold a) rem)) add.
+
+(** keeper.updateReqAttrs on already normalised lists: [None] = it returned errors (some entry to
+    remove is not currently required, or some entry to add already is - both judged against the
+    CURRENT list, so removing and re-adding one entry in the same message is an error);
+    otherwise the new list: the current entries that are not removed, in order, followed by the
+    entries to add. *)
+Definition update_req_attrs (cur rem add : list bytes) : option (list bytes) :=
+  let bad_rem := existsb (fun a => negb (mem_bytes a cur)) rem in
+  let kept := filter (fun a => negb (mem_bytes a rem)) cur in
+  let bad_add := existsb (fun a => mem_bytes a cur) add in
+  let added := filter (fun a => negb (mem_bytes a cur)) add in
+  if bad_rem || bad_add then None else Some (kept ++ added).
